@@ -7,6 +7,28 @@ Import ListNotations.
 Open Scope N_scope.
 Ltac Zify.zify_post_hook ::= Z.div_mod_to_equations.
 
+(* injectivity as lemmas: `injection` would partially evaluate sums such as 2 + l *)
+Lemma ROk_inj {A} (v v' : A) n n' : ROk v n = ROk v' n' -> v = v' /\ n = n'.
+Proof. intros H; injection H; auto. Qed.
+Lemma RErr_inj {A} n n' : @RErr A n = RErr n' -> n = n'.
+Proof. intros H; injection H; auto. Qed.
+Lemma DOk_inj p p' n n' : DOk p n = DOk p' n' -> p = p' /\ n = n'.
+Proof. intros H; injection H; auto. Qed.
+Lemma DErr_inj n n' : DErr n = DErr n' -> n = n'.
+Proof. intros H; injection H; auto. Qed.
+Lemma HOk_inj a b c a' b' c' : HOk a b c = HOk a' b' c' -> a = a' /\ b = b' /\ c = c'.
+Proof. intros H; injection H; auto. Qed.
+Lemma HErr_inj n n' : HErr n = HErr n' -> n = n'.
+Proof. intros H; injection H; auto. Qed.
+
+Lemma Some_inj {A} (a b : A) : Some a = Some b -> a = b.
+Proof. intros H; injection H; auto. Qed.
+Lemma Some_inj2 {A B} (a a' : A) (b b' : B) : Some (a, b) = Some (a', b') -> a = a' /\ b = b'.
+Proof. intros H; injection H; auto. Qed.
+Lemma Some_inj3 {A B C} (a a' : A) (b b' : B) (c c' : C) :
+  Some (a, b, c) = Some (a', b', c') -> a = a' /\ b = b' /\ c = c'.
+Proof. intros H; injection H; auto. Qed.
+
 (* ---------- lengths ---------- *)
 Lemma len_nil : len [] = 0.
 Proof. reflexivity. Qed.
@@ -29,8 +51,17 @@ Proof. reflexivity. Qed.
 Lemma len_0 l : len l = 0 -> l = [].
 Proof. destruct l; [reflexivity | rewrite len_cons; lia]. Qed.
 
+Lemma skipn_add {A} (a b : nat) (l : list A) : skipn a (skipn b l) = skipn (b + a) l.
+Proof.
+  revert l. induction b as [| b IH]; intros l; [reflexivity |].
+  destruct l; [cbn; destruct a; reflexivity | cbn [skipn Nat.add]; apply IH].
+Qed.
+
 Lemma b2n_lt b : b2n b < 256.
 Proof. unfold b2n. pose proof (Byte.to_N_bounded b). lia. Qed.
+
+Lemma qos_successful_le q : qos_successful q = (q <=? 2).
+Proof. unfold qos_successful. lia. Qed.
 
 (* ---------- checked slices ---------- *)
 Lemma slice_from_ok bs lo : lo <= len bs -> slice_from bs lo = Some (skipn (N.to_nat lo) bs).
